@@ -215,6 +215,7 @@ def run_shard(shard, acc):
             groups(bs, acc)
         else:
             errors(bs, acc)
+            big_values(bs, acc)
 
 
 def run_seq(bs, acc, seq):
@@ -377,6 +378,26 @@ def groups(bs, acc):
         check_format(bs, acc, [('empty',), ('tok', a), ('tok', b), ('empty',)], (1, 0), sep=' , ')
         check_format(bs, acc, [('tok', a), ('tok', b)], (1, 1), sep='\t,\n ')
     acc.sample(dict(event="pack('2*(u5, 2*(hex8))', ...) equals the format written out; k = 0..3; empty items; whitespace"))
+
+
+def big_values(bs, acc):
+    """Self-delimiting tokens with values at and around large powers of two (codewords of ~100-400 bits), alone and inside a format."""
+    for k in ('ue', 'se', 'uie', 'sie'):
+        for e in (31, 32, 48, 49, 50, 53, 63, 64, 100, 200):
+            for d in (-2, -1, 0, 1):
+                for sgn in ((1, -1) if k in ('se', 'sie') else (1,)):
+                    v = sgn * ((1 << e) + d)
+                    code = G.ENC[k](v)
+                    acc.state(('big', k, e, d, sgn))
+                    for fmt, vals, exp in ((k, (v,), code), (f'uint:3, {k}, bool', (5, v, True), '101' + code + '1'), (f'2*{k}', (v, 3), code + G.ENC[k](3))):
+                        got = obs(lambda: bs.pack(fmt, *vals).bin)
+                        back = obs(lambda: bs.Bits(bin=exp).unpack(fmt))
+                        acc.step('pack', 1, nontrivial=1, ok=1)
+                        acc.step('unpack', 1, nontrivial=1, ok=1)
+                        if got != ('ok', exp) or back != ('ok', list(vals)):
+                            acc.violation('pack', 'value' if got[0] == 'ok' else 'exc', dict(fmt=fmt, values=repr(vals)[:80], group=f'big|{k}'),
+                                          '\n'.join(["import bitstring", f"v = {vals!r}", f"b = bitstring.pack({fmt!r}, *v)", f"assert b.unpack({fmt!r}) == list(v), b.unpack({fmt!r})"]), exp[:40], str(got)[:80])
+    acc.sample(dict(event="pack('uint:3, ue, bool', 5, 2**49 - 2, True) and back"))
 
 
 def errors(bs, acc):
